@@ -11,7 +11,7 @@ _T = ['C14_2', 'C14_2_rowdict_sound', 'C14_2_rowdict_complete', 'C14_2_iff', 'C1
       'C14_4_values_from_using', 'C14_4_last_wins', 'C14_4_unprefixed', 'C14_4_foreign_prefix', 'C14_4_own_prefix',
       'C14_4_partition_size_removed', 'C14_5_sound', 'C14_5_complete', 'C14_5_neutralised', 'C14_where_clauses',
       'C14_1', 'C14_1_nodup', 'C14_1_plan', 'C14_1_apply_input', 'C14_1_predictor_first',
-      'C14_partial', 'C14_witness_model_first', 'C14_witness_on_gt',
+      'C14_partial', 'C14_5_swap', 'C14_rewrite_keeps_table', 'C14_witness_on_gt',
       'C14_target_stays']
 THEOREMS = ['MindsVerif.Props.C14.' + t for t in _T]
 ASSUME = [
